@@ -131,3 +131,49 @@ example : (mergeLevel cfg pieces3).map (fun ks => ks.map fun x => (x.id?, x.kids
 end Ex
 
 end D2P
+
+namespace D2P
+
+theorem hasContentL_append : ∀ (a b : List Xml), hasContentL (a ++ b) = (hasContentL a || hasContentL b)
+  | [], b => by simp [hasContentL]
+  | x :: a, b => by simp only [List.cons_append, hasContentL, hasContentL_append a b, Bool.or_assoc]
+
+/-- the merged element still has content -/
+theorem hasContent_merged (r1 : Xml) (more : List Xml) (h : hasContent r1 = true) (he : r1.isElem = true) :
+    hasContent (setTextKids r1 r1.text? (r1.kids ++ more)) = true := by
+  cases r1 with
+  | elem i p t m a tx tl ks =>
+    have hp : (Xml.elem i p t m a tx tl (ks ++ more)).ptag = (Xml.elem i p t m a tx tl ks).ptag := by cases p <;> rfl
+    simp only [hasContent, Bool.or_eq_true] at h
+    simp only [setTextKids, Xml.text?, Xml.kids, hasContent, isContentTag, hp, hasContentL_append, Bool.or_eq_true]
+    rcases h with h | h
+    · exact Or.inl (by simpa [isContentTag] using h)
+    · exact Or.inr (Or.inl h)
+  | comment _ _ => simp [Xml.isElem] at he
+  | pi _ => simp [Xml.isElem] at he
+
+/-- **merging again changes nothing**: a single content-bearing element among content-free markup
+is a group of one -/
+theorem mergeLevel_single (cfg : PartCfg) (m : Xml) (noise : List Xml) (k : ElemKey)
+    (hm : hasContent m = true) (hn : ∀ x ∈ noise, hasContent x = false) (hk : elemKey cfg m = .ok k) :
+    mergeLevel cfg (m :: noise) = .ok (m :: noise) := by
+  unfold mergeLevel
+  have hf : (m :: noise).filter hasContent = [m] := by
+    rw [List.filter_cons]; simp only [hm, if_true]
+    congr 1
+    exact List.filter_eq_nil_iff.2 (fun x hx => by simp [hn x hx])
+  rw [hf]
+  simp only [keyed, hk, ok_bind, pure, Except.pure]
+  show Except.ok ((groupAdj [(k, m)]).foldl applyGroup (m :: noise)) = _
+  simp [groupAdj, applyGroup]
+
+/-- **C06, idempotence of the n-ary merge**: what `C06_split_many` produces is a fixed point -/
+theorem C06_merge_idempotent (cfg : PartCfg) (r1 : Xml) (tail : List Xml) (k' : ElemKey)
+    (h1 : hasContent r1 = true) (he : r1.isElem = true)
+    (hk : elemKey cfg (setTextKids r1 r1.text? (r1.kids ++ (pieces tail).flatMap Xml.kids)) = .ok k') :
+    mergeLevel cfg (mergedKids r1 tail) = .ok (mergedKids r1 tail) := by
+  unfold mergedKids
+  exact mergeLevel_single cfg _ _ k' (hasContent_merged r1 _ h1 he)
+    (fun x hx => by simpa using (List.mem_filter.1 hx).2) hk
+
+end D2P
